@@ -342,7 +342,7 @@ fn float_text() -> impl Strategy<Value = String> {
 }
 
 fn command_line() -> impl Strategy<Value = String> {
-    let files = vec!["good.asm", "good2.asm", "bad.asm", "missing.asm", "dir", "nonutf8.asm", "é.asm", "", "good.asm ", "./good.asm", "dir/inner.asm", "GOOD.ASM", "Good.asm", "DIR/inner.asm"];
+    let files = vec!["good.asm", "good2.asm", "bad.asm", "missing.asm", "dir", "nonutf8.asm", "é.asm", "", "good.asm ", "./good.asm", "dir/inner.asm", "GOOD.ASM", "Good.asm", "DIR/inner.asm", "counter.asm"];
     let base = prop_oneof![
         6 => (prop::sample::select(vec!["FC", "FD", "FE", "FF"]), any::<bool>(), spacing(), spacing(), number_text()).prop_map(|(r, set, a, b, n)| format!("{}{}{}={}{}", if set { "set " } else { "" }, r, a, b, n)),
         2 => (spacing(), spacing(), number_text()).prop_map(|(a, b, n)| format!("set IRG{}={}{}", a, b, n)),
@@ -386,6 +386,16 @@ fn ev_strategy() -> impl Strategy<Value = Ev> {
         4 => prop::sample::select(vec!['a', 'w', 'e', 'r', 'l', 'x', 'z']).prop_map(Ev::Ctrl),
         1 => (0u8..16).prop_map(Ev::Other),
         12 => command_line().prop_map(Ev::Type),
+        // load, run for a while, load the same path again (a reload starts from a clean machine)
+        2 => (prop::sample::select(vec!["counter.asm", "good2.asm", "good.asm", "./counter.asm", "dir/inner.asm"]), prop_oneof![1u32..40, 40u32..400], 0usize..GENERATED_PROGRAMS, 0u8..4)
+            .prop_map(|(f, n, g, how)| {
+                let f = if how == 3 { format!("g{:02}.asm", g) } else { f.to_string() };
+                match how {
+                    0 => Ev::Type(format!("load {}\nnext {}\nload {}", f, n, f)),
+                    1 => Ev::Type(format!("load {}\nnext {}\nLOAD {}\nnext {}", f, n, f, n / 2 + 1)),
+                    _ => Ev::Type(format!("load {}\nnext {}\nload {}\nnext 3", f, n, f)),
+                }
+            }),
         // two lines in a row that are equal, or equal up to letter case / blanks (history, repeated
         // commands, `load` of paths that differ only in case): '\n' inside a macro is the Enter key
         3 => (command_line(), any::<u32>(), 0u8..5).prop_map(|(l, mask, how)| {
@@ -442,6 +452,9 @@ pub fn prepare_scratch() {
     let good2 = "#! mrasm\n*STACKSIZE 32\n JR MAIN\n JR ISR\nMAIN:\n LDSP 0xEF\n BITS (0xF9), 1\n EI\n LD R0, 7\nL:\n DEC R0\n JZC L\n STOP\n JR MAIN\nISR:\n INC R2\n ST (0xFE), R2\n RETI\n";
     let _ = std::fs::write(d.join("good.asm"), good);
     let _ = std::fs::write(d.join("good2.asm"), good2);
+    // a program that writes RAM outside its code (data cell, stack): a reload has to clear all of it again
+    let counter = "#! mrasm\n LDSP 0xEF\nLOOP:\n LD R0, (0x80)\n INC R0\n ST (0x80), R0\n ST (0xFF), R0\n PUSH R0\n CALL SUB\n POP R1\n JR LOOP\nSUB:\n ST (0x81), R1\n RET\n";
+    let _ = std::fs::write(d.join("counter.asm"), counter);
     // same name in another letter case, different program: paths are case-sensitive, keywords are not
     let _ = std::fs::write(d.join("GOOD.ASM"), good2);
     let _ = std::fs::write(d.join("é.asm"), good);
@@ -848,6 +861,7 @@ pub fn fuzz_one(data: &[u8], abort: bool) -> Option<(String, String)> {
         "set J1", "unset J1", "set UIO2", "unset UIO3", "show memory", "show register", "next", "next 9", "load good.asm", "load good2.asm",
         "load bad.asm", "load missing.asm", "load dir", "load nonutf8.asm", "load é.asm", "foo", "  ", "set J1 = true", "quit",
         "load GOOD.ASM", "LOAD good.asm", "load Good.asm", "foo\nFOO", "load good.asm\nload GOOD.ASM", "load GOOD.ASM\nload good.asm", "set j1\nSET J1", "next\nNEXT",
+        "load counter.asm", "next 60", "load counter.asm\nnext 90\nload counter.asm",
     ];
     let cmd: Vec<char> = CMD_ALPHA.chars().collect();
     let mut p = 0usize;
